@@ -2,8 +2,8 @@
 // lean/Nstd/Avl/Driver.lean on the real include/nstd/Map.hpp and MultiMap.hpp.
 // Containers: 0 = Map<Key,int>, 1 = MultiMap<Key,int>, 2 = a second Map, 3 = a second MultiMap.
 // Only the public API is used (the tree shape is pinned through the comparison count of
-// `find` for every key of the domain); `wb` additionally prints the node fields read through
-// an access-specifier override (evidence only).
+// `find` for every key of the domain); `wb` and observation level 3 additionally print the node fields, parent
+// links, the prev/next list as item ids and the free list, read through an access-specifier override.
 #include "common/hx.h"
 #include <stdarg.h>
 #include <signal.h>
@@ -83,6 +83,9 @@ template<class C> static typename C::Iterator itAt(C& c, unsigned long p)
   return i;
 }
 
+template<class C> static long idOf(const C& c, const typename C::Item* it);
+template<class C> static void wbAll(const C& c);
+
 template<class C> static void observe(C& c, const char* ret, unsigned long cmps)
 {
   printf("%s c=%lu n=%lu", ret, cmps, (unsigned long)c.size());
@@ -119,6 +122,11 @@ template<class C> static void observe(C& c, const char* ret, unsigned long cmps)
       else
         printf(" %lu/%lu", posOf(c, it), n);
     }
+  }
+  if(lvl >= 3)
+  { // white-box: every stored field the model has (read through the access-specifier override)
+    printf(" # ");
+    wbAll(c);
   }
   hxEndLine();
 }
@@ -167,6 +175,38 @@ template<class C> static void wb(const C& c, const typename C::Item* i)
   printf(" %ld/%d:%lu:%ld ", idOf(c, i), i->key.k, (unsigned long)i->height, (long)i->slope);
   wb(c, i->right);
   printf(")");
+}
+
+// the same with the parent link of every item: (left id/key:height:slope^parent right)
+template<class C> static void wbp(const C& c, const typename C::Item* i)
+{
+  if(!i) { printf("."); return; }
+  printf("(");
+  wbp(c, i->left);
+  printf(" %ld/%d:%lu:%ld^", idOf(c, i), i->key.k, (unsigned long)i->height, (long)i->slope);
+  if(i->parent) printf("%ld ", idOf(c, i->parent)); else printf("- ");
+  wbp(c, i->right);
+  printf(")");
+}
+
+// tree with parent links, the prev/next list as item ids (walked forwards over `next`, every `prev` link and both
+// sentinels checked against it), the free list in order
+template<class C> static void wbAll(const C& c)
+{
+  wbp(c, c.root);
+  printf(" ord");
+  const typename C::Item* prev = 0;
+  unsigned long n = 0;
+  bool okLinks = c._end.item == &c.endItem && c.endItem.next == 0;
+  for(const typename C::Item* i = c._begin.item; i != &c.endItem && n <= c._size; prev = i, i = i->next, ++n)
+  {
+    printf(" %ld", idOf(c, i));
+    if(i->prev != prev) okLinks = false;
+  }
+  if(c.endItem.prev != prev || n != c._size) okLinks = false;
+  if(!okLinks) printf(" PREV-NEXT-LINKS-BROKEN");
+  printf(" free");
+  for(const typename C::Item* f = c.freeItem; f; f = f->prev) printf(" %ld", idOf(c, f));
 }
 
 // ops on one container; returns false when the line is not one of them
